@@ -2595,4 +2595,24 @@ theorem firstPass_tot {d : Bytes} (hd : d.size + 268435456 ≤ 4294967296) {s : 
   · show d.size - s2.r.offset + s2.pkgEndStack.size + 1 ≤ fuel
     rw [hpk2]; simp; omega
 
+/-- `fuelFor` covers the fuel the first pass needs -/
+theorem fuelFor_enough (d : Bytes) (t : ObjectTree) : 13 * d.size + 13 ≤ fuelFor d t := by
+  unfold fuelFor; omega
+
+/-- executable check of `TreeOK` (used for the non-vacuity example: the default scopes) -/
+def treeOKb (t : ObjectTree) : Bool :=
+  wfCheck t && decide (0 < t.pool.size) &&
+  (List.range t.pool.size).all fun x =>
+    live t x && (C13.P t x == INV || decide (C13.P t x < x)) && (opFlags (slot t x).infoIndex).isSome
+
+theorem treeOK_of_b {t : ObjectTree} (h : treeOKb t = true) : TreeOK t := by
+  unfold treeOKb at h
+  simp only [Bool.and_eq_true, decide_eq_true_eq, List.all_eq_true, List.mem_range, Bool.or_eq_true, beq_iff_eq] at h
+  obtain ⟨⟨hw, hne⟩, hall⟩ := h
+  refine ⟨by unfold wfCheck at hw; exact wfCert_sound' hw, fun i hi => (hall i hi).1.1, ?_, fun x hx => (hall x hx).2, hne⟩
+  intro x hx hp
+  rcases (hall x hx).1.2 with h1 | h1
+  · exact absurd h1 hp
+  · exact h1
+
 end Firefly.AmlParser
